@@ -14,12 +14,14 @@ import (
 	"os"
 	"strconv"
 	"strings"
+	"sync"
 )
 
 type Case struct {
 	id     string
 	fields map[string]string
 	order  []string
+	dirty  bool // a field was set by a batch preparer after parsing / generation
 }
 
 func (c *Case) get(k, d string) string {
@@ -29,7 +31,26 @@ func (c *Case) get(k, d string) string {
 	return d
 }
 
+// set adds (or replaces) a field of the case line after the case ran: kinds whose tie is the
+// acceptance of an observed trace record the observation in the case line (obs=...), and the
+// case file is rewritten after the run so that the Lean driver reads what was observed.
+var casesDirty bool
+var caseMu sync.Mutex
+
+func (c *Case) set(k, v string) {
+	caseMu.Lock()
+	defer caseMu.Unlock()
+	if _, ok := c.fields[k]; !ok {
+		c.order = append(c.order, k)
+	}
+	c.fields[k] = v
+	c.dirty = true
+	casesDirty = true
+}
+
 func (c *Case) line() string {
+	caseMu.Lock()
+	defer caseMu.Unlock()
 	var sb strings.Builder
 	sb.WriteString("case " + c.id)
 	for _, k := range c.order {
@@ -106,6 +127,44 @@ func registerKind(genName string, gen genFn, caseKind string, run runFn) {
 	}
 }
 
+// Batch preparers: a kind whose cases are executed in real time (kind=timed) runs all the cases of
+// a shard concurrently BEFORE the case file is written and stores what it observed in the case
+// itself (`obs=`), so that the Lean driver judges exactly the trace the implementation produced.
+// In replay mode the cases are re-executed and the case file is rewritten with the fresh observation.
+type prepFn func(cases []*Case)
+
+var preparers = map[string]prepFn{}
+
+func registerPreparer(caseKind string, p prepFn) { preparers[caseKind] = p }
+
+func prepare(cases []*Case) {
+	for kind, p := range preparers {
+		var mine []*Case
+		for _, c := range cases {
+			if c.get("kind", "op") == kind {
+				mine = append(mine, c)
+			}
+		}
+		if len(mine) > 0 {
+			p(mine)
+		}
+	}
+}
+
+func writeCases(path string, cases []*Case) {
+	cf, err := os.Create(path)
+	if err != nil {
+		fmt.Fprintln(os.Stderr, err)
+		os.Exit(2)
+	}
+	w := bufio.NewWriter(cf)
+	for _, c := range cases {
+		w.WriteString(c.line() + "\n")
+	}
+	w.Flush()
+	cf.Close()
+}
+
 func runCase(c *Case) string {
 	if r, ok := runners[c.get("kind", "op")]; ok {
 		return r(c)
@@ -150,6 +209,13 @@ func main() {
 			}
 		}
 		f.Close()
+		prepare(cases)
+		for _, c := range cases {
+			if c.dirty {
+				writeCases(*casesPath, cases)
+				break
+			}
+		}
 	} else {
 		all := generate(kind, *tier, *seed, *only)
 		for i, c := range all {
@@ -157,17 +223,8 @@ func main() {
 				cases = append(cases, c)
 			}
 		}
-		cf, err := os.Create(*casesPath)
-		if err != nil {
-			fmt.Fprintln(os.Stderr, err)
-			os.Exit(2)
-		}
-		w := bufio.NewWriter(cf)
-		for _, c := range cases {
-			w.WriteString(c.line() + "\n")
-		}
-		w.Flush()
-		cf.Close()
+		prepare(cases)
+		writeCases(*casesPath, cases)
 	}
 	rf, err := os.Create(*resPath)
 	if err != nil {
@@ -180,6 +237,19 @@ func main() {
 	}
 	w.Flush()
 	rf.Close()
+	if casesDirty {
+		cf, err := os.Create(*casesPath)
+		if err != nil {
+			fmt.Fprintln(os.Stderr, err)
+			os.Exit(2)
+		}
+		cw := bufio.NewWriter(cf)
+		for _, c := range cases {
+			cw.WriteString(c.line() + "\n")
+		}
+		cw.Flush()
+		cf.Close()
+	}
 }
 
 func generate(kind, tier string, seed int64, only string) []*Case {
